@@ -975,9 +975,13 @@ pub fn big_bytes(src: &mut Src, unit_items: u32) -> Vec<u8> {
     let k = 1 + src.below(3);
     let units: Vec<Vec<u8>> = (0..k).map(|_| utf8_soup(src, unit_items)).collect();
     let filler: &[u8] = src.pick::<&[u8]>(&[b"a", b"ab\r\n", b"\xc3\xa9", b"\xe4\xb8\xad", b"x\x1b[1mY", b"\xf0\x9f\x98\x80z"]);
+    // the mix of units and filler is a 16-step pattern drawn once: the loop below must not
+    // consume choices (it runs tens of thousands of times and would exhaust the source, leaving
+    // only first alternatives - "one feed" - for the chunking drawn afterwards)
+    let pattern = src.u16() & src.u16();
     let mut i = 0;
     while out.len() < target {
-        if src.chance(40) || i % 7 == 3 {
+        if (pattern >> (i % 16)) & 1 == 1 || i % 7 == 3 {
             out.extend_from_slice(&units[i % units.len()]);
         } else {
             out.extend_from_slice(filler);
@@ -991,8 +995,18 @@ pub fn big_bytes(src: &mut Src, unit_items: u32) -> Vec<u8> {
 }
 
 pub fn big_chunking(src: &mut Src, b: &[u8]) -> Vec<Vec<u8>> {
-    match src.weighted(&[3, 4, 3, 2]) {
+    match src.weighted(&[3, 4, 3, 2, 4]) {
         0 => vec![b.to_vec()],
+        4 => {
+            // a read loop: a short first read, then reads whose length sits at (or up to 3 below)
+            // a buffer size - so the reads start at every alignment relative to the multi-byte
+            // characters, with an incomplete character carried into a buffer-sized read
+            let off = (*src.pick(&[0u32, 1, 2, 3, 5, 7, 4093, 4094, 4095]) as usize).min(b.len());
+            let size = *src.pick(&[4096u32, 4096, 8192, 16384, 65536]) as usize - src.below(4) as usize;
+            let mut out = vec![b[..off].to_vec()];
+            out.extend(b[off..].chunks(size).map(|c| c.to_vec()));
+            out
+        }
         1 => {
             // one cut near a buffer-size boundary
             let at = *src.pick(&[1u32, 4095, 4096, 4097, 8192, 16383, 16384, 16385, 32768, 65536]) as usize;
